@@ -28,8 +28,11 @@ LEVEL_TEXT = ("Lean theorems over ℝ composing the C05 distance model (every di
               "the constant ln k, the Gaussian-kernel sample-based densities by ln k; end-to-end statements for a time-delay Gaussian "
               "lens and a kinematics-only lens for every model and all (λ, κ, γ).  The statement is evaluated on the real code with "
               "real astropy cosmologies; the model's scaled / unscaled values are compared with the real classes.")
-LEVEL_NOTE = "trusted: Lean kernel+Mathlib, the constituent models; astropy homogeneity validated numerically (1e-9)"
-TECHNIQUE = "Lean 4 proof (field arithmetic on the composed C03/C05/C06/C12 models) + oracle/correspondence on the real code"
+LEVEL_NOTE = ("trusted: Lean kernel+Mathlib, the constituent models and their composition Model/H0Sample (cosmology -> distances -> displacement -> data term; run end to end "
+              "against the real lens term, comoving integral by Simpson with 2^9 panels, tol 1e-6); sample-level theorems (ratio_sample_flat_H0, td_sample_H0_times_scale) quantify over "
+              "lists of such lenses, the sample sum itself is C07's; magnification lenses and the Res-valued kinematic types have their own end-to-end theorems; "
+              "astropy homogeneity validated numerically (1e-9)")
+TECHNIQUE = "Lean 4 proof (field arithmetic on the composed C03/C05/C06/C12 models, list induction over samples of lenses) + oracle/correspondence on the real code"
 
 RATIO_TYPES = ["IFUKinCov", "DsDdsGaussian", "DSPL", "Mag"]
 TD_TYPES = ["DdtGaussian", "DdtLogNorm", "DdtDdGaussian", "DdtHist", "DdtHistKDE", "DdtGaussKin", "DdtHistKin", "TDMag", "TDMagMagnitude"]
